@@ -134,7 +134,10 @@ def _roles(repo, col, cl, name, R="R-C09-roles", RS="R-C09-space"):
         col.check(roles == {("v", want)}, R, fi, f"compute_current: {pname} is the voltage at the {want}synaptic compartment",
                   f"stack([voltages[{want}_inds], voltages[{want}_inds] + diff])", f"argument `{pname}` is {a.short(100)} (roles {roles})", node=vm)
     in_axes = next((k.value for k in vm.func.keywords if k.arg == "in_axes"), None)
-    col.check(in_axes is not None and unparse(in_axes).replace(" ", "") == "(None,0,0,None)", R, fi,
+    axes_t = ex.term(in_axes) if in_axes is not None else None
+    axes_ok = axes_t is not None and axes_t.op == "tuple" and [a_.name if a_.op == "const" else "?" for a_ in axes_t.args] == \
+        [0 if p_ in ("pre_voltage", "post_voltage") else None for p_ in sig[1:]]
+    col.check(axes_ok, R, fi,
               "vmap maps over the two stacked voltages only", "in_axes=(None, 0, 0, None)",
               f"in_axes is {unparse(in_axes) if in_axes is not None else None}", node=vm)
     conv = next((c for c in ex.calls if isinstance(c.func, ast.Name) and c.func.id == "convert_point_process_to_distributed"), None)
@@ -254,8 +257,11 @@ def _linear(repo, col):
         if isinstance(n, ast.AugAssign) and isinstance(n.target, ast.Name) and n.target.id in ("syn_voltage_terms", "syn_constant_terms"):
             aug[n.target.id] = (type(n.op).__name__, unparse(n.value), n)
     ok = aug.get("syn_voltage_terms", ("",))[0] == "Add" and aug.get("syn_constant_terms", ("",))[0] == "Sub"
-    col.check(ok, R, fs, "synapses: voltage terms += slope, constant terms -= offset (same signs as channels)",
-              str({k: v[:2] for k, v in aug.items()}), f"accumulation is {({k: v[:2] for k, v in aug.items()})}", node=fs.node)
+    col.add(R, fs, "synapses: voltage terms += slope, constant terms -= offset (same signs as channels)",
+            "DISCHARGED" if ok else ("VIOLATED" if len(aug) == 2 else "UNDECIDED"),
+            str({k: v[:2] for k, v in aug.items()}) if ok else
+            (f"accumulation is {({k: v[:2] for k, v in aug.items()})}" if len(aug) == 2 else
+             "the accumulators syn_voltage_terms / syn_constant_terms were not found (renamed?)"), node=fs.node)
     if len(aug) == 2:
         ok = aug["syn_voltage_terms"][1].endswith("[0]") and aug["syn_constant_terms"][1].endswith("[1]") and \
             aug["syn_voltage_terms"][1][:-3] == aug["syn_constant_terms"][1][:-3]
@@ -264,9 +270,20 @@ def _linear(repo, col):
     ex = idx.expander(repo, fs)
     gs = next((c for c in ex.calls if isinstance(c.func, ast.Name) and c.func.id == "gather_synapes"), None)
     if gs is not None:
-        ok = unparse(gs.args[2]) == "voltage_term" and unparse(gs.args[3]) == "constant_term"
-        col.check(ok, R, fs, "gather_synapes receives (slope, offset) in that order", "(voltage_term, constant_term)",
-                  f"receives ({unparse(gs.args[2])}, {unparse(gs.args[3])})", node=gs)
+        # roles by what the arguments ARE: the slope is the difference quotient (contains a division by the perturbation),
+        # the offset is built from the slope
+        t2, t3 = ex.term(gs.args[2]), ex.term(gs.args[3])
+        is_slope = lambda t_: t_.op == "binop" and t_.name == "/"
+        has_slope = lambda t_, sl: T.find(t_, lambda x: x.key() == sl.key()) is not None
+        if is_slope(t2) and not is_slope(t3) and has_slope(t3, t2):
+            verdict = "DISCHARGED"
+        elif is_slope(t3) and not is_slope(t2) and has_slope(t2, t3):
+            verdict = "VIOLATED"
+        else:
+            verdict = "UNDECIDED"
+        col.add(R, fs, "gather_synapes receives (slope, offset) in that order", verdict,
+                "(difference quotient, offset)" if verdict == "DISCHARGED" else
+                f"receives ({t2.short(60)}, {t3.short(60)})", node=gs)
 
 
 def _additive(repo, col):
